@@ -18,6 +18,20 @@ OBSOLETE = {
     'C01-5': 'led to finding F16: the seed made ONLY the responder compute SKEYSEED with the old PRF (which is what RFC 7296 2.18 prescribes); the unchanged tree used the '
              'new PRF on both sides. After the F16 repair (fb61330, both sides RFC-conformant) the patch no longer applies. Before the repair the C01 check missed it '
              '(no suite changed the PRF on rekey); suite prf_change was added and fails on the pre-repair tree',
+    'C06-3': 'the patch edits PayloadDELETE.parse, which the F20 repair (7388edc) rewrote: it no longer applies; last evaluation (before that repair) is kept below',
+    'C13-3': 'the patch edits the try block of main_loop that the F19 repair (066eac6) split in two: it no longer applies; last evaluation (before that repair) is kept below',
+    'C17-2': 'the patch edits the except clauses of main_loop that the F19 repair (066eac6) rewrote: it no longer applies; last evaluation (before that repair) is kept below',
+    'C17-3': 'the patch edits the try block of main_loop that the F19 repair (066eac6) split in two: it no longer applies; last evaluation (before that repair) is kept below',
+    'C17-4': 'after the F19 repair (066eac6: timers served in their own try block) the demo of this change passes with the patch applied: it can no longer manifest; '
+             'last evaluation (before that repair) is kept below',
+    'C13-2': 'the patch edits the COOKIE branch of process_ike_sa_init_response, which the F23 repair (437d908) rewrote: it no longer applies; last evaluation kept below',
+    'C18-3': 'the patch edits the COOKIE branch of process_ike_sa_init_response, which the F23 repair (437d908) rewrote: it no longer applies; last evaluation kept below',
+    'C18-9': 'written against the tree before the F23 repair (437d908), which rewrote the lines it edits (it is a faulty version of that very repair): it no longer applies. '
+             'Evaluated on the pre-repair tree 89cd917 with the patch: C18 quick exit 1 (initiator harness, second COOKIE response: other)',
+    'C15-5': 'the patch edits IkeSaController.process_acquire / _get_ike_sa_by_peer_addr, which the F24 repair (a346d24) rewrote: it no longer applies; last evaluation kept below',
+    'C12-4': 'the patch edits the responder roll-back that the F25 repair (6539da6) rewrote: it no longer applies; last evaluation kept below',
+    'C10-9': 'written against the tree before the F25 repair (6539da6), which rewrote the roll-back it edits: it no longer applies. Evaluated on the pre-repair tree a346d24 with '
+             'the patch: C10 quick exit 1 (orphaned inbound SA after a refusal of the second NEWSA at the responder, flows initial / new_child / rekey_child)',
     'C17-5': 'cannot manifest after the F15 repair (1d65f0d): CHILD_SA SPIs that are not 4 bytes long are refused before they reach the kernel layer, so the demo passes on the '
              'patched tree. Its author\'s closing remark led to finding F15',
 }
@@ -58,8 +72,18 @@ def evaluate(seed):
     meta['detected'] = bool(m2 and int(m2.group(3)) == 1 and int(m2.group(4)) > 0)
     if seed in OBSOLETE:
         meta['obsolete'] = OBSOLETE[seed]
-    if 'PATCH DOES NOT APPLY' in out:
-        meta['verified_here']['note'] = 'the patch no longer applies to the current (repaired) tree'
+    if 'PATCH DOES NOT APPLY' in out or (seed in OBSOLETE and not meta['detected']):
+        meta['verified_here']['note'] = 'the patch no longer applies to / no longer manifests on the current (repaired) tree'
+        # keep the last evaluation that could be made (from the history of this file)
+        revs = subprocess.run(['git', '-C', V, 'log', '--format=%h', '--', f'seeded/{seed}/meta.json'], capture_output=True, text=True).stdout.split()
+        for r in revs:
+            try:
+                old = json.loads(subprocess.run(['git', '-C', V, 'show', f'{r}:seeded/{seed}/meta.json'], capture_output=True, text=True).stdout)
+            except Exception:
+                continue
+            if old.get('check_result', {}).get('exit') is not None and old.get('verified_here', {}).get('demo_with_patch_exit') not in (None, 0):
+                meta['last_evaluation'] = {'verif_commit': r, 'verified_here': old['verified_here'], 'check_result': old['check_result'], 'detected': old.get('detected')}
+                break
     json.dump(meta, open(os.path.join(d, 'meta.json'), 'w'), indent=1)
     return meta
 
